@@ -134,7 +134,7 @@ func pairsStr(ps [][2]int) string {
 }
 
 // runSubject drives a node over history h following the schedule, recording every batch.
-// With l.RUB the flushes are left to the node's own timer (that is the only way GC runs).
+// With l.Timer the flushes are left to the node's own timer (that is the only way GC runs).
 func runSubject(h *History, cfg config.Blockchain, l Local, steps []Step, backend string) (*subjectRun, error) {
 	inner, cleanup, err := newBackend(backend)
 	if err != nil {
@@ -178,7 +178,7 @@ func runSubject(h *History, cfg config.Blockchain, l Local, steps []Step, backen
 	gcSeen := 0
 	gcPending := false
 	gcLine := func() { // the GC calls that followed the previous flush (they are over by now)
-		if !l.RUB || !gcPending {
+		if !l.Timer || !gcPending {
 			return
 		}
 		gcPending = false
@@ -198,7 +198,7 @@ func runSubject(h *History, cfg config.Blockchain, l Local, steps []Step, backen
 		gcLine()
 		stray("gc")
 		before := len(sr.batchInfo)
-		if l.RUB {
+		if l.Timer {
 			// wait for the timer-driven persist (and the GC that follows it in the same goroutine)
 			deadline := time.Now().Add(4 * time.Second)
 			for time.Now().Before(deadline) {
@@ -260,7 +260,7 @@ func runSubject(h *History, cfg config.Blockchain, l Local, steps []Step, backen
 		}
 	}
 	// a clean stop flushes what is left
-	if l.RUB {
+	if l.Timer {
 		time.Sleep(60 * time.Millisecond)
 	}
 	gcLine()
